@@ -344,3 +344,204 @@ def plan_C12(p, tier, seed):
                  "                if self._quitonerror == ERR_RAISE:\n                    self._do_error(err)")
     _step_canary(p, "handler-called-twice", "                self._errorhandler(err)\n",
                  "                self._errorhandler(err)\n                self._errorhandler(err)\n")
+
+
+# ----------------------------------------------------------------------------------------------- instances
+def _instance_units(p, select, modes=(0, 1, 2)):
+    """one unit per (mode, class/ID) of the working tree's message-ID table + the residual unknown-ID case"""
+    from . import instance as inst
+    keys = inst.message_keys()
+    n = 0
+    for m in modes:
+        for k in keys:
+            u = CustomUnit(f"init[{inst.MODES[m]}:{k.hex()}]", inst.init_unit, (m, k), props=(p.prop,), cost=2)
+            u.select = select
+            p.add(u)
+            p.replayers[u.name] = inst.replay_instance
+            n += 1
+        u = CustomUnit(f"init[{inst.MODES[m]}:unknown-id]", inst.init_unit, (m, None), props=(p.prop,), cost=60)
+        u.select = select
+        p.add(u)
+        p.replayers[u.name] = inst.replay_instance
+        n += 1
+    p.instances = {"message_keys": len(keys), "modes": len(modes), "instance_units": n,
+                   "variants_per_instance": "payload any length x bitfield view {parsed, raw}; no payload; "
+                                            "conforming payload x bitfield view"}
+    p.exhaustive = True
+    return n
+
+
+T_INSTANCE = ("instance mode: the definition tables are enumerated exhaustively from the working tree (finite); payload "
+              "bytes, payload length and group repeat counts stay symbolic; symbolic group loops are cut by the schematic "
+              "invariant offset == offset_entry + i*G, proved preserved per instance")
+
+
+def _init_canary(p, name, module, old, new, mode, keyhex):
+    from . import instance as inst
+    u = CustomUnit("x", inst.init_unit, (mode, bytes.fromhex(keyhex)), cost=2)
+    p.canary(name, module, old, new, u)
+
+
+UBX_ERRS = ("UBXParseError", "UBXMessageError", "UBXTypeError")
+
+
+def plan_C01(p, tier, seed):
+    p.explanation = (
+        "parse (M) returns the constructor's result for (message[2:3], message[3:4], mode, payload slice); the constructor "
+        "contract (class/id/mode/payload stored verbatim, length == u16le(len(payload)), checksum == Fletcher-8 of "
+        "class..payload, raises only UBX* errors) is proved in instance mode for every class/ID of the message table x mode x "
+        "bitfield view x any payload of any length, plus the residual symbolic class/ID outside the table (together all "
+        "65536 pairs); serialize (M) concatenates the stored fields; the round trip is then an SMT lemma over those "
+        "contracts. repr: __repr__ is proved to emit the constructor expression over the stored class, id, mode, payload; "
+        "eval(repr(bytes)) == bytes is an assumed built-in law.")
+    p.func(R + "parse")
+    p.func(M + "serialize")
+    p.func(M + "_do_len_checksum")
+    p.func(M + "__repr__")
+    for g in ("msg_cls", "msg_id", "length", "payload", "msgmode"):
+        p.func(M + g)
+    p.func(H + "calc_checksum")
+    _instance_units(p, r"/(ensures:(class|id|mode|payload-kept|payload-none|immutable|length-width|length-value|checksum)"
+                       r"|raises:|C08:inspect:(serialize|__repr__|length|payload))")
+    p.add(LemmaUnit(
+        "lemma.C01/parse-serialize-roundtrip", "pyubx2.ubxreader",
+        {"f": "bytes", "msgmode": "int", "validate": "int", "parsebitfield": "boolint"},
+        ["wf_frame(f)", "0 <= msgmode <= 3"],
+        [("serialize", "UBXReader.parse(f, msgmode, validate, parsebitfield).serialize() == f"),
+         ], props=("C01",), allow=UBX_ERRS))
+    p.add(LemmaUnit(
+        "lemma.C01/parsed-fields-are-the-frame-fields", "pyubx2.ubxreader",
+        {"f": "bytes", "msgmode": "int", "validate": "int", "parsebitfield": "boolint"},
+        ["wf_frame(f)", "0 <= msgmode <= 3"],
+        [("msg_cls", "UBXReader.parse(f, msgmode, validate, parsebitfield).msg_cls == f[2:3]"),
+         ("msg_id", "UBXReader.parse(f, msgmode, validate, parsebitfield).msg_id == f[3:4]"),
+         ("length", "UBXReader.parse(f, msgmode, validate, parsebitfield).length == len(f) - 8"),
+         ("payload", "payload_bytes(UBXReader.parse(f, msgmode, validate, parsebitfield).payload) == f[6:len(f) - 2]"),
+         ], props=("C01",), allow=UBX_ERRS))
+    p.add(LemmaUnit(
+        "lemma.C01/repr-roundtrip", "pyubx2.ubxmessage",
+        {"cls": ("bytesn", 1), "mid": ("bytesn", 1), "mode": "int", "pl": "bytes"},
+        ["0 <= mode <= 2"],
+        [("same-frame", "same_frame(UBXMessage(cls, mid, mode, payload=pl), UBXMessage(cls, mid, mode, payload=pl, parsebitfield=0))"),
+         ], props=("C01",), allow=UBX_ERRS))
+    p.min_obligations = 5000
+    p.trusted_base += [T_INSTANCE, "eval(repr(b)) == b for bytes and ints (CPython built-in law, assumed)"]
+    p.canary("serialize-drops-length", "pyubx2.ubxmessage", "            + self._length\n", "", FuncUnit(M + "serialize"))
+    p.canary("length-off-by-one", "pyubx2.ubxmessage", "self._length = val2bytes(len(payload), U2)",
+             "self._length = val2bytes(len(payload) + 1, U2)", FuncUnit(M + "_do_len_checksum"))
+    _init_canary(p, "ctor-truncates-payload", "pyubx2.ubxmessage", 'self._payload = kwargs.get("payload", b"")',
+                 'self._payload = kwargs.get("payload", b"")[:-1]', 0, "0122")
+
+
+def plan_C02(p, tier, seed):
+    p.explanation = (
+        "Instance mode: for every definition reachable for a class/ID x mode (variants selected by the real selectors on "
+        "the symbolic payload) and a payload laid out according to it (conformance predicate from the independent layout "
+        "oracle: size attributes equal the counts, total length), the real walker is executed and every attribute store is "
+        "compared with the oracle: value == little-endian / two's-complement / IEEE (uninterpreted) / scaled (uninterpreted "
+        "float plumbing) / bit-sliced decoding of the bytes at the oracle's offset; the set of exposed names and their order "
+        "equal the oracle's; repeated attributes are checked on an arbitrary iteration (index i+1, offset by the proved "
+        "schematic invariant), nested groups included; both bitfield views; conforming payloads must parse.")
+    _instance_units(p, r"/(C02:|.*_set_attribute_group/loop1:)")
+    from contracts.helpers import type_constants
+    for T in type_constants():
+        p.func(H + "bytes2val", T)
+    p.min_obligations = 10000
+    p.trusted_base += [T_INSTANCE, "contracts/oracle.py (independent layout oracle, from README Extensibility rules)",
+                       "floating point scaling and rounding are uninterpreted (fmul, round_n): the proof covers routing of "
+                       "bytes, type, scale constant and the rounding call, not floating-point values"]
+    _init_canary(p, "group-index-off-by-one", "pyubx2.ubxmessage", "index[-1] = i + 1", "index[-1] = i", 0, "0135")
+    _init_canary(p, "bits-offset-not-advanced", "pyubx2.ubxmessage", "return (bitfield, bfoffset + atts)",
+                 "return (bitfield, bfoffset)", 0, "0107")
+    p.canary("bytes2val-signedness", "pyubx2.ubxhelpers",
+             'val = int.from_bytes(valb, byteorder="little", signed=atttyp(att) == "I")',
+             'val = int.from_bytes(valb, byteorder="little", signed=atttyp(att) == "U")', FuncUnit(H + "bytes2val", "I004"))
+    _init_canary(p, "scaled-not-rounded", "pyubx2.ubxmessage", "val = round(bytes2val(valb, adef) * ares, SCALROUND)",
+                 "val = bytes2val(valb, adef) * ares", 0, "0107")
+
+
+def plan_C16(p, tier, seed):
+    from . import ground, bounded
+    p.explanation = (
+        "Closed obligations over the working tree's tables, enumerated exhaustively: WF(def) - the documented grammar "
+        "(valid types, flags fit their bitfield, group sizes named by an earlier integer attribute or flag, one "
+        "variable-by-size group, last, names unique in both bitfield views, no collision with UBXMessage's own "
+        "attributes, injective repeat naming) - for every GET/SET/POLL definition; reachability of every definition; "
+        "unique message names; configuration-database rules (valid type, width == size code, unique IDs). Instance mode: "
+        "a payload laid out according to each definition parses, and its exposed names are exactly the definition's "
+        "(no two fields under one name). Native ground run: a nominal instance of every (message, mode) is built and parsed.")
+    p.add(GroundUnit("ground.C16/WF", ground.wf_definitions, (), props=("C16",)))
+    p.add(GroundUnit("ground.C16/reachability", ground.reachability, (), props=("C16",)))
+    p.add(GroundUnit("ground.C16/configdb", ground.configdb_rules, (), props=("C16",)))
+    p.add(GroundUnit("ground.C16/nominal", ground.nominal_instances, (), props=("C16",)))
+    _instance_units(p, r"/C02:(conforming-payload-parses|names|names-repeated|members:|family-defined:)")
+    p.add(BoundedUnit("bounded.C16/oracle-vs-parser", bounded.oracle_vs_parser, (tier, seed), props=("C16",)))
+    p.min_obligations = 10000
+    p.trusted_base += [T_INSTANCE, "contracts/oracle.py (grammar rules restated from README 'Extensibility')"]
+    for inj in ("length-field", "dup-flag", "late-count"):
+        u = GroundUnit(f"canary:table-{inj}", ground.wf_definitions, (inj,))
+        u.canary = f"table-{inj}"
+        p.units.append(u)
+
+
+def plan_C13(p, tier, seed):
+    from .units import factory_unit
+    p.explanation = (
+        "__setattr__ and __delattr__ are verified against contracts: once _immutable is set they raise UBXMessageError "
+        "for every attribute name (symbolic name) and leave the stored frame fields unchanged; the constructor "
+        "contract's `immutable` clause is proved per instance. Side effects: every function under contract carries a "
+        "modifies clause without the ghost locations `io` (stdout/stderr: print is charged to it) and `tables` (any "
+        "mutating operation on an object the code did not allocate, i.e. the shared definition tables); the frame "
+        "obligation is proved for every instance of the constructor (all class/IDs x modes) and for the helper, reader "
+        "and serialisation functions. History/thread independence is a corollary of these frames (results are functions "
+        "of the arguments and read-only tables); interleavings themselves are not explored.")
+    for meth in ("__setattr__", "__delattr__"):
+        p.func(M + meth)
+        p.add(CustomUnit(f"{M}{meth}[immutable, any name]", factory_unit,
+                         ("contracts.message", "immutable_any_name", meth, f"{M}{meth}[immutable, any name]"), props=("C13",)))
+    _instance_units(p, r"/(modifies|ensures:immutable|.*loop1:frame)")
+    for f in ("serialize", "__repr__", "_do_len_checksum", "length", "payload", "msgmode", "msg_cls", "msg_id"):
+        p.func(M + f)
+    for f in ("calc_checksum", "isvalid_checksum", "getinputmode", "protocol", "get_bits", "msgclass2bytes"):
+        p.func(H + f)
+    p.func(R + "parse")
+    p.min_obligations = 4000
+    p.trusted_base += [T_INSTANCE, "frames: built-ins are modelled as pure except print (ghost io) and mutators on "
+                                   "foreign objects (ghost tables); logging writes to the ghost error log only"]
+    p.assumptions += ["thread interleavings are not explored: independence is argued from the proved frames "
+                      "(no shared mutable state is written); CPython-level atomicity is outside the contracts"]
+    p.canary("setattr-ignores-flag", "pyubx2.ubxmessage", "        if self._immutable:\n            raise UBXMessageError(\n                f\"Object is immutable. Updates",
+             "        if False:\n            raise UBXMessageError(\n                f\"Object is immutable. Updates", FuncUnit(M + "__setattr__"))
+    _init_canary(p, "get_dict-prints", "pyubx2.ubxmessage", "            msg = self._ubxClass + self._ubxID\n",
+                 "            msg = self._ubxClass + self._ubxID\n            print(msg)\n", 0, "0122")
+    _init_canary(p, "selector-mutates-table", "pyubx2.ubxvariants", '    if ver == b"\\x00":\n        return UBX_PAYLOADS_GET["NAV-RELPOSNED-V0"]',
+                 '    if ver == b"\\x00":\n        UBX_PAYLOADS_GET["NAV-RELPOSNED-V0"]["seen"] = "U001"\n        return UBX_PAYLOADS_GET["NAV-RELPOSNED-V0"]', 0, "013c")
+
+
+def plan_C08(p, tier, seed):
+    from . import reader_units as ru, bounded
+    p.explanation = (
+        "Exception side: parse (M) raises only UBXParseError/UBXMessageError/UBXTypeError for every byte string; the "
+        "constructor raises only UBXMessageError/UBXTypeError for every class/ID x mode x bitfield view x payload of any "
+        "length (instance mode, residual unknown IDs included), and identity/length/payload/msgmode/serialize/__repr__ "
+        "raise nothing on any message it returns; the reader step (real loop body, every configuration, file and socket "
+        "style) raises only under ERR_RAISE and then only protocol errors. Termination: every non-terminal reader step "
+        "consumes >= 1 byte (decreases n - pos); SocketWrapper.read / readline, _set_attribute_cfgval and get_bits carry "
+        "proved decreases clauses; all other loops range over finite table entries or size fields. __str__ (iterates "
+        "__dict__) is a bounded stand-in.")
+    p.func(R + "parse")
+    _reader_common(p, lemmas=("basic[file]", "basic[socket]"))
+    p.func(R + "_read_bytes")
+    p.func(R + "_read_line")
+    p.func(R + "__next__")
+    for m in ("read", "readline"):
+        p.func(W + m)
+    p.func(H + "get_bits")
+    _instance_units(p, r"/(raises:|C08:|.*loop1:decreases)")
+    p.add(BoundedUnit("bounded.C08/str-of-messages", bounded.str_of_messages, (tier, seed), props=("C08",)))
+    p.add(BoundedUnit("bounded.C08/dependency-parsers", bounded.dependency_parsers, (tier, seed), props=("C08",)))
+    p.min_obligations = 8000
+    p.trusted_base += [T_INSTANCE]
+    _init_canary(p, "struct-error-not-translated", "pyubx2.ubxmessage", "            struct.error,\n", "", 0, "0b02")
+    p.canary("parse-error-message-overflows", "pyubx2.ubxreader", 'f" - should be {max(lenm - 8, 0)}"',
+             'f" - should be {val2bytes(lenm, U2)}"', FuncUnit(R + "parse"))
